@@ -8,5 +8,10 @@ import SparseSpace.Properties.C11b
 #print axioms SparseSpace.C11b.unit_complete_grid_is_romberg
 #print axioms SparseSpace.C11b.romberg_degree_complete_grid_unit
 #print axioms SparseSpace.C11b.romberg_degree_default_variants
+#print axioms SparseSpace.C11b.midpoint_monomial_expansion
+#print axioms SparseSpace.C11b.balanced_complete_grid_is_romberg_table
+#print axioms SparseSpace.C11b.romberg_table_value
+#print axioms SparseSpace.C11b.balanced_degree
+#print axioms SparseSpace.C11b.balanced_degree_monomial
 #print axioms SparseSpace.C11b.polyInt_monomial
 #print axioms SparseSpace.C11b.polyInt_derivative
